@@ -9,6 +9,7 @@ builtin maps clean operands and a clean heap to a clean result and a clean heap.
 -/
 import ZygoVerif.Model.Prim
 set_option linter.unusedSimpArgs false
+set_option linter.unusedVariables false
 namespace ZygoVerif.Sim
 open ZygoVerif.Core
 
